@@ -2556,6 +2556,15 @@ func getVarDependencies(nod *node, sc *scope) (deps []*node) {
 	var walk func(root *node, inFunc bool)
 	walk = func(root *node, inFunc bool) {
 		root.Walk(func(n *node) bool {
+			if n.kind == selectorExpr && n.action == aGetMethod {
+				// A reference to a method (method value or method expression) is
+				// a reference to the variables its body refers to.
+				if m, ok := n.val.(*node); ok && m.kind == funcDecl && !seen[m] {
+					seen[m] = true
+					walk(m, true)
+				}
+				return true
+			}
 			if n.kind != identExpr {
 				return true
 			}
